@@ -929,7 +929,12 @@ func (e *Engine) verify(fn *ssa.Function, opts VerifyOpts) (u *Unit) {
 		func() {
 			defer func() {
 				if r := recover(); r != nil {
-					if _, ok := r.(evalError); ok {
+					if ee, ok := r.(evalError); ok {
+						if aenvPkg := e.pkgByName(ax.Pkg); aenvPkg != nil && fn.Pkg != nil && fn.Pkg.Pkg == aenvPkg {
+							// an axiom of the unit's own package that cannot be evaluated is a contract error
+							u.note("axiom " + ax.Name + " cannot be evaluated: " + ee.msg)
+							u.axiomErrs = append(u.axiomErrs, ax.Name+": "+ee.msg)
+						}
 						return
 					}
 					panic(r)
